@@ -60,6 +60,27 @@ type c01bSess struct {
 	kick       chan struct{}
 }
 
+func (bs *c01bSess) kickLoop() {
+	select {
+	case bs.kick <- struct{}{}:
+	default:
+	}
+}
+
+func (bs *c01bSess) setHoldSend(v bool) {
+	bs.mu.Lock()
+	bs.holdSend = v
+	bs.mu.Unlock()
+	bs.kickLoop()
+}
+
+func (bs *c01bSess) setHoldDetach(v bool) {
+	bs.mu.Lock()
+	bs.holdDetach = v
+	bs.mu.Unlock()
+	bs.kickLoop()
+}
+
 func (bs *c01bSess) hold(send, detach bool) {
 	bs.mu.Lock()
 	bs.holdSend, bs.holdDetach = send, detach
@@ -252,6 +273,34 @@ func (sc *c01bScn) pubJSON(id, content, noecho string) string {
 	return `{"pub":{"id":"` + id + `","topic":"` + sc.topic + `","content":` + content + ne + `}}`
 }
 
+// the unregistered instance session si is still attached to, or -1
+func (sc *c01bScn) zombieOf(si int) int {
+	b := sc.bs[si]
+	if b == nil {
+		return -1
+	}
+	for i, z := range sc.zombies {
+		if _, ok := z.sessions[b.vs.s]; ok {
+			return i
+		}
+	}
+	return -1
+}
+
+// zombie i handles the {pub} the real Session.publish queues on its clientMsg channel
+func (sc *c01bScn) zpub(i, si int, id, content, noecho string) bool {
+	z := sc.zombies[i]
+	sc.send(si, sc.pubJSON(id, content, noecho))
+	select {
+	case m := <-z.clientMsg:
+		// runLocal: `case msg := <-t.clientMsg: t.handleClientMsg(msg)` chosen before `case sd := <-t.exit`
+		z.handleClientMsg(m)
+		return true
+	default:
+		return false
+	}
+}
+
 func (sc *c01bScn) bop(w []string) {
 	sc.opi++
 	fmt.Fprintf(sc.out, "op %d\n", sc.opi)
@@ -268,6 +317,14 @@ func (sc *c01bScn) bop(w []string) {
 	at := func(i int) int { v, _ := strconv.Atoi(a[i]); return v }
 	invalid := false
 	switch kind {
+	case "leave", "getdata", "getdesc":
+		if sc.zombieOf(at(0)) >= 0 {
+			// outside the model: the request would sit in the queues of an instance that no longer runs
+			invalid = true
+			kind = "skip"
+		}
+	}
+	switch kind {
 	case "sub":
 		set := ""
 		if a[1] != "-" {
@@ -281,7 +338,11 @@ func (sc *c01bScn) bop(w []string) {
 		}
 		sc.send(at(0), `{"leave":{"id":"`+id+`","topic":"`+tn+`"`+unsub+`}}`)
 	case "pub":
-		sc.send(at(0), sc.pubJSON(id, a[1], a[2]))
+		if i := sc.zombieOf(at(0)); i >= 0 {
+			invalid = !sc.zpub(i, at(0), id, a[1], a[2])
+		} else {
+			sc.send(at(0), sc.pubJSON(id, a[1], a[2]))
+		}
 	case "getdata":
 		opts := map[string]int{}
 		if at(1) != 0 {
@@ -320,7 +381,7 @@ func (sc *c01bScn) bop(w []string) {
 				for s := range t.sessions {
 					for _, b := range sc.bs {
 						if b.vs.s == s {
-							b.hold(false, true)
+							b.setHoldDetach(true)
 						}
 					}
 				}
@@ -343,15 +404,7 @@ func (sc *c01bScn) bop(w []string) {
 			invalid = true
 			break
 		}
-		// the real Session.publish queues the {pub} on the instance the session is attached to
-		sc.send(at(1), sc.pubJSON(id, a[2], a[3]))
-		select {
-		case m := <-z.clientMsg:
-			// runLocal: `case msg := <-t.clientMsg: t.handleClientMsg(msg)` chosen before `case sd := <-t.exit`
-			z.handleClientMsg(m)
-		default:
-			invalid = true
-		}
+		invalid = !sc.zpub(i, at(1), id, a[2], a[3])
 	case "zexit":
 		i := at(0)
 		if i >= len(sc.zombies) {
@@ -363,7 +416,7 @@ func (sc *c01bScn) bop(w []string) {
 		for s := range z.sessions {
 			for _, b := range sc.bs {
 				if b.vs.s == s {
-					b.hold(false, false)
+					b.setHoldDetach(false)
 				}
 			}
 		}
@@ -372,7 +425,7 @@ func (sc *c01bScn) bop(w []string) {
 			for _, h := range strings.Split(a[0], ",") {
 				hi, _ := strconv.Atoi(h)
 				if b := sc.bs[hi]; b != nil {
-					b.hold(true, true)
+					b.setHoldSend(true)
 				}
 			}
 		}
@@ -380,7 +433,11 @@ func (sc *c01bScn) bop(w []string) {
 		for k := 1; k+2 < len(a); k += 3 {
 			j++
 			si, _ := strconv.Atoi(a[k])
-			sc.send(si, sc.pubJSON(id+"x"+strconv.Itoa(j), a[k+1], a[k+2]))
+			if i := sc.zombieOf(si); i >= 0 {
+				sc.zpub(i, si, id+"x"+strconv.Itoa(j), a[k+1], a[k+2])
+			} else {
+				sc.send(si, sc.pubJSON(id+"x"+strconv.Itoa(j), a[k+1], a[k+2]))
+			}
 		}
 		// the whole burst is handled while the held write loops stand still
 		if hang := sc.quiet(); hang != "" {
@@ -391,7 +448,7 @@ func (sc *c01bScn) bop(w []string) {
 			hs := b.holdSend
 			b.mu.Unlock()
 			if hs {
-				b.hold(false, false)
+				b.setHoldSend(false)
 			}
 		}
 	}
@@ -504,6 +561,7 @@ func TestVerifC01b(t *testing.T) {
 			sc.newSession(si)
 		case "op":
 			sc.bop(w[1:])
+			out.Flush()
 		case "end":
 			memverif.ClearFault()
 			sc.dropAll()
